@@ -253,10 +253,13 @@ PLAN_C08 = {
     "emit": [micro(2, 8), micro(3, 60, ("thorough",)), dict(what="all 1-step pipelines over all tables with <=1 row", fams=UNARY, rows=1, steps=1, level=1, **T1)],
     "sim": dict(what="random pipelines of 3 steps over 2 tables of <=3 rows", num=(1500, 5000), rows=3, steps=3, **SIMT),
     "backends": ("pandas", "sqlite", "pg", "polars"),
-    "opts": {"values": False, "col_order": True},
+    "opts": {"values": False, "col_order": True, "variants": [None, "extracol"]},
+    "sims": [inter(["cols", "order"], num=(300, 1500), steps=2), inter(["cols", "order", "select_rows"], num=(300, 1500), steps=3)],
     "exec_traces": ("columns", "walk"),
     "allow_raise": ("pandas", "sqlite", "pg", "polars"),
-    "assumptions": ["only the column set (and the column order after select_columns) is compared; a backend that raises "
+    "assumptions": ["every behaviour is also evaluated on inputs that have one more column than their description mentions "
+                    "(placed first); the results must still have exactly the declared columns",
+                    "only the column set (and the column order after select_columns) is compared; a backend that raises "
                     "returns no table and is not judged by this property",
                     "PostgreSQL dialect SQL is executed on SQLite (proxy)"],
 }
